@@ -36,6 +36,7 @@ type c01Op struct {
 	Req      map[string]int64 `json:"req,omitempty"`
 	Np       bool             `json:"np,omitempty"`
 	Bound    bool             `json:"bound,omitempty"`
+	Term     bool             `json:"term,omitempty"` // the object carries a node name but the pod has finished (Succeeded / Failed): it is not "bound" in the spec's sense
 	In       string           `json:"in,omitempty"`
 	Delta    map[string]int64 `json:"delta,omitempty"`
 	Variant  int              `json:"variant,omitempty"`
@@ -79,7 +80,7 @@ func c01Quota(o c01Op) *v1alpha1.ElasticQuota {
 	return q
 }
 
-func c01Pod(id, quota string, req map[string]int64, np, bound bool) *corev1.Pod {
+func c01Pod(id, quota string, req map[string]int64, np, bound bool, term ...bool) *corev1.Pod {
 	p := &corev1.Pod{
 		ObjectMeta: metav1.ObjectMeta{Name: id, Namespace: "ns", UID: types.UID(id), Labels: map[string]string{extension.LabelQuotaName: quota}},
 		Spec: corev1.PodSpec{Containers: []corev1.Container{{Name: "c", Resources: corev1.ResourceRequirements{Requests: c01RL(req)}}}},
@@ -90,6 +91,10 @@ func c01Pod(id, quota string, req map[string]int64, np, bound bool) *corev1.Pod 
 	if bound {
 		p.Spec.NodeName = "n1"
 		p.Status.Phase = corev1.PodRunning
+	}
+	if len(term) > 0 && term[0] { // a finished pod: still an object with a node name, counted until it is deleted
+		p.Spec.NodeName = "n1"
+		p.Status.Phase = []corev1.PodPhase{corev1.PodSucceeded, corev1.PodFailed}[len(id)%2]
 	}
 	return p
 }
@@ -232,7 +237,7 @@ func (w *c01World) apply(o c01Op) {
 			w.gqm.DeleteQuota(q)
 		}
 	case "podAdd":
-		p := c01Pod(o.Pod, o.Q, o.Req, o.Np, o.Bound)
+		p := c01Pod(o.Pod, o.Q, o.Req, o.Np, o.Bound, o.Term)
 		w.mu.Lock()
 		w.pods[o.Pod] = &c01PodRec{obj: p, quota: o.Q}
 		w.mu.Unlock()
@@ -240,7 +245,7 @@ func (w *c01World) apply(o c01Op) {
 	case "podUpdate":
 		w.mu.Lock()
 		old := w.pods[o.Pod]
-		np := c01Pod(o.Pod, o.Q, o.Req, o.Np, o.Bound)
+		np := c01Pod(o.Pod, o.Q, o.Req, o.Np, o.Bound, o.Term)
 		w.pods[o.Pod] = &c01PodRec{obj: np, quota: o.Q}
 		w.mu.Unlock()
 		w.gqm.OnPodUpdate(o.Q, old.quota, np, old.obj)
@@ -441,6 +446,9 @@ func c01Event(o c01Op) vu.Ev {
 		ev["name"] = o.Name
 	case "podAdd", "podUpdate":
 		ev["pod"], ev["q"], ev["req"], ev["np"], ev["bound"] = o.Pod, o.Q, c01V(o.Req), o.Np, o.Bound
+		if o.Term {
+			ev["term"] = true
+		}
 	case "podDelete", "reserve", "unreserve":
 		ev["pod"] = o.Pod
 	case "raceDelete":
@@ -511,6 +519,7 @@ type c01Gen struct {
 	rng    *rand.Rand
 	quotas map[string]c01Op
 	pods   map[string]string // pod -> quota (shadow only steers generation)
+	last   map[string]c01Op  // pod -> its last podAdd / podUpdate
 	nq, np int
 	big    bool
 	races  int // how many same-pod reserve/unreserve-vs-delete races may still be generated (each costs ~40 ms)
@@ -571,6 +580,25 @@ func (g *c01Gen) sortedPods() []string {
 }
 
 func (g *c01Gen) podOp(forPod string) (c01Op, bool) {
+	o, ok := g.podOp0(forPod)
+	if g.last == nil {
+		g.last = map[string]c01Op{}
+	}
+	switch {
+	case ok && (o.Op == "podAdd" || o.Op == "podUpdate"):
+		g.last[forPod] = o
+	case ok && o.Op == "migrate":
+		if l, has := g.last[forPod]; has {
+			l.Q = o.In
+			g.last[forPod] = l
+		}
+	case ok && (o.Op == "podDelete" || o.Op == "raceDelete"):
+		delete(g.last, forPod)
+	}
+	return o, ok
+}
+
+func (g *c01Gen) podOp0(forPod string) (c01Op, bool) {
 	scale := int64(8)
 	if g.big {
 		scale = 1000000
@@ -607,6 +635,14 @@ func (g *c01Gen) podOp(forPod string) (c01Op, bool) {
 		g.pods[forPod] = q
 		return c01Op{Op: "podUpdate", Pod: forPod, Q: q, Req: g.vec(scale), Np: g.rng.Intn(4) == 0, Bound: g.rng.Intn(3) == 0}, true
 	default:
+		if l, ok := g.last[forPod]; ok && l.Q == g.pods[forPod] {
+			switch g.rng.Intn(6) {
+			case 0: // only the preemptible label flips, same request
+				return c01Op{Op: "podUpdate", Pod: forPod, Q: l.Q, Req: l.Req, Np: !l.Np, Bound: l.Bound}, true
+			case 1: // the pod finishes (Succeeded / Failed): it keeps counting until it is deleted
+				return c01Op{Op: "podUpdate", Pod: forPod, Q: l.Q, Req: l.Req, Np: l.Np, Term: true}, true
+			}
+		}
 		return c01Op{Op: "podUpdate", Pod: forPod, Q: g.pods[forPod], Req: g.vec(scale), Np: g.rng.Intn(4) == 0, Bound: g.rng.Intn(3) == 0}, true
 	}
 }
